@@ -120,6 +120,13 @@ class Pairs(Sub):
         check_len("interval(b, a, absolute=True)", pendulum.interval(b, a, absolute=True), abs(true), fails)
         check_len("a.diff(b)", a.diff(b), abs(true), fails)
         check_len("b.diff(a)", b.diff(a), abs(true), fails)
+        # abs() of what is already a magnitude (whichever endpoint was given first) is that magnitude again
+        check_len("abs(a.diff(b))", abs(a.diff(b)), abs(true), fails)
+        check_len("abs(b.diff(a))", abs(b.diff(a)), abs(true), fails)
+        check_len("abs(interval(a, b, absolute=True))", abs(pendulum.interval(a, b, absolute=True)), abs(true), fails)
+        check_len("abs(interval(b, a, absolute=True))", abs(pendulum.interval(b, a, absolute=True)), abs(true), fails)
+        check_len("abs(abs(a - b))", abs(abs(a - b)), abs(true), fails)
+        check_len("abs(abs(b - a))", abs(abs(b - a)), abs(true), fails)
         # native operands
         na, nb = T.render(u1, z1), T.render(u2, z2)
         check_len("pendulum - native", b - na, true, fails)
@@ -184,6 +191,11 @@ class NaiveDate(Sub):
         check_len("abs(a - b)", abs(a - b), abs(true), fails)
         check_len("interval(b, a, absolute=True)", pendulum.interval(b, a, absolute=True), abs(true), fails)
         check_len("a.diff(b)", a.diff(b), abs(true), fails)
+        check_len("abs(a.diff(b))", abs(a.diff(b)), abs(true), fails)
+        check_len("abs(b.diff(a))", abs(b.diff(a)), abs(true), fails)
+        check_len("abs(interval(b, a, absolute=True))", abs(pendulum.interval(b, a, absolute=True)), abs(true), fails)
+        check_len("abs(interval(a, b, absolute=True))", abs(pendulum.interval(a, b, absolute=True)), abs(true), fails)
+        check_len("abs(abs(a - b))", abs(abs(a - b)), abs(true), fails)
         if kind == "date":
             iv = b - a
             req(iv.in_days() == trunc(true, 86400 * US), "Date interval in_days() wrong", got=iv.in_days())
